@@ -102,7 +102,8 @@ def gen_graph(rng):
             pos = rng.randrange(len(ops) + 1)
             ops.insert(pos, ("once",))
         files[name] = ops
-    return names, files
+    # one to three root files (they share the #once set); roots may also be included by other files
+    return names, files, rng.choice([1, 1, 1, 2, 2, 3])
 
 
 def render_file(ops):
@@ -175,15 +176,17 @@ def run(chk):
     # ---------------- inclusion graphs
     graphs = [gen_graph(rng) for _ in range(30000 if thorough else 4000)]
     aops, mops = [], []
-    for names, files in graphs:
-        aops.append(fw.asm_op([(n, render_file(files[n])) for n in names]))
-        mops.append("inc %s %s" % (fw.hx("main.asm"), " ".join(
+    for names, files, nroots in graphs:
+        nroots = min(nroots, len(names))
+        aops.append(fw.asm_op([(n, render_file(files[n])) for n in names], roots=nroots))
+        mops.append("inc %s %s" % (",".join(fw.hx(n) for n in names[:nroots]), " ".join(
             "%s=%s" % (fw.hx(n), ";".join(("m%d" % o[1]) if o[0] == "m" else ("i" + fw.hx(o[1])) if o[0] == "i" else "o" for o in files[n])) for n in names)))
     impl = fw.run_oracle_resilient(aops, "c14g")
     model = fw.run_model(mops, "c14g")
-    for (names, files), a, m in zip(graphs, impl, model):
+    for (names, files, nroots), a, m in zip(graphs, impl, model):
         chk.evaluations += 1
-        inp = {"files": {n: render_file(files[n]) for n in names}}
+        nroots = min(nroots, len(names))
+        inp = {"files": {n: render_file(files[n]) for n in names}, "roots": names[:nroots]}
         if a.get("panic") is not None or a.get("died") or a.get("not_run"):
             chk.disagree(json.dumps(inp)[:300], m, "crash")
             chk.violate("inclusion crashed the assembler (no diagnostic)", inp, "expansion or error", str(a)[:200])
@@ -198,7 +201,10 @@ def run(chk):
         if il.strip() != m.strip():
             chk.disagree(json.dumps(inp)[:400], m, il)
         try:
-            exp = "ok " + " ".join(str(k) for k in ref_expand(files, "main.asm", [], set()))
+            once, outl = set(), []
+            for rt in names[:nroots]:
+                outl += ref_expand(files, rt, [], once)
+            exp = "ok " + " ".join(str(k) for k in outl)
         except KeyError as e:
             exp = "err " + e.args[0]
         except RecursionError:
